@@ -449,7 +449,7 @@ def run(ctx):
         grid = exhaustive(ctx, 2, 2, [["A"], ["N"]])       # every 2-type hierarchy x every offer sequence of length <= 2
         ctx.count("grid:<=2 types x <=2 offers x {always,never} (exhaustive)", len(grid))
         ctx.cov["exhaustive"] = True
-        cases = corpus() + grid + [gen_case(rnd, ctx, 5, 6, 8) for _ in range(800)]
+        cases = corpus() + grid + [gen_case(rnd, ctx, 5, 6, 8) for _ in range(700)]
     else:
         grid = exhaustive(ctx, 3, 2, [["A"], ["N"]])
         seen = set(json.dumps(c, sort_keys=True) for c in grid)
